@@ -20,6 +20,11 @@ CHECKS = {
          "Self-triggering, mutually triggering and quiescing programs are run with every max_cycles in 0..=64 (a fixed family exhaustively over that grid, random programs beyond); the monitor checks cycle_count and passes against the bound, fired count against callbacks, that only the last pass may fire nothing and that an early stop happened exactly after an empty pass, and re-evaluates every still-eligible rule on the final facts with the reference evaluator. A run that makes more than max_cycles+1 passes or more than max_cycles x #rules firings is stopped by the monitor (logical bound); shards run in child processes with a CPU limit as back-stop.",
          "Trusts hook H2 for pass boundaries (no markers => inconclusive), the reference evaluator for the fixpoint clause, and a fresh engine per run (no-loop tracking starts empty).",
          "DESIGN.md §5 C03"),
+ "C04": ("exploration",
+         "grammar-based generation with the generator's own AST + structural comparison of all three parser entry points, under independent layout/comment/hostile-string features; shrinking to the surviving cause",
+         "Rule files are generated from the documented grammar together with their AST, rendered under independently switchable whitespace features, comment placements and hostile string contents, parsed by parse_rules, parse_with_modules and (rule by rule) parse_rule, and compared piece by piece (count, order, name, salience, each attribute, flattened condition tree with every leaf, action list). Failing files are shrunk over rules, layout features, comments, attributes, condition, actions and string contents; the signature is the set of hostile features that survived (or, on plain grammar, the clause and remaining structure). Held = every explored file parsed equal to what was written, apart from the listed known findings.",
+         "The expected AST encodings (bare path = Value::Expression, arithmetic leaf = one Test leaf with the same tokens, flattened And/Or) are the harness's reading of the parser's contract; Rule.description is not compared. A failing file that still contains a feature listed as a known finding is attributed to that finding (a tainted file proves nothing new); files without such features are always reported in full.",
+         "DESIGN.md §5 C04"),
  "C13": ("exploration",
          "online step monitor (invariant + conservation) over exhaustive and random event sequences",
          "Runs WatermarkedStream on every timestamp sequence of a small dense domain (exhaustively up to a stated length, randomly beyond) under every watermark/late-data configuration and checks, after every add_event, monotonicity, the watermark value, the late/on-time decision, routing by unique event id and the counter identities. Held = no step of any explored sequence broke a clause.",
